@@ -3,6 +3,7 @@
   in every reachable state.
 -/
 import Nq.Lemmas.DaemonStep
+import Nq.Lemmas.DaemonSlots
 
 namespace Nq.Lemmas.DI
 open Nq Nq.Daemon
@@ -537,6 +538,106 @@ theorem step_inv_core (cfg : Cfg) (s s' : St) (e : Ev) (hinv : Inv cfg s) (hacc 
               exact ⟨by simpa using hg.1, by simpa using hg.2.1⟩
             · cases hacc
           · cases hacc
+
+/-! ### the crash exemption list grows only by a crash-damage event -/
+
+@[simp] theorem lostRecs_setChan (ms : MsgSt) (c : Ch) (v : Option (List Rec)) : (ms.setChan c v).lostRecs = ms.lostRecs :=
+  (setChan_rest2 ms c v).2.1
+@[simp] theorem lostRecs_setChanSynced (ms : MsgSt) (c : Ch) (v : Bool) : (ms.setChanSynced c v).lostRecs = ms.lostRecs := by
+  cases c <;> rfl
+
+theorem lost_tab (s s1 : St) (m' : Nat) (v : MsgSt) (htab : s1.tab = tabSet s.tab m' v) (hf : ∀ y ∈ v.lostRecs, y ∈ (s.msg m').lostRecs)
+    (m : Nat) (x : Ch × Nat) (hx : x ∈ (s1.msg m).lostRecs) : x ∈ (s.msg m).lostRecs := by
+  simp only [St.msg, htab, tabGet_set] at hx
+  split at hx
+  · rename_i he; subst he; exact hf x hx
+  · exact hx
+
+theorem handleReport_lost (cfg : Cfg) (s : St) (c : Ch) (rep : Bytes) (m : Nat) :
+    ((handleReport cfg s c rep).msg m).lostRecs = (s.msg m).lostRecs := by
+  simp only [handleReport]
+  repeat' split
+  all_goals first
+    | rfl
+    | (simp only [St.msg, St.upd, tabGet_set]; split <;> first | rfl | (subst_vars; rfl))
+
+theorem feedReports_lost (cfg : Cfg) (c : Ch) (m : Nat) : ∀ (bs : Bytes) (s : St),
+    ((feedReports cfg s c bs).msg m).lostRecs = (s.msg m).lostRecs
+  | [], s => rfl
+  | b :: bs, s => by
+    have hd : ∀ v, (s.setDline c v).msg m = s.msg m := by intro v; cases c <;> rfl
+    simp only [feedReports]
+    split
+    · rw [feedReports_lost cfg c m bs, handleReport_lost, hd]
+    · rw [feedReports_lost cfg c m bs, hd]
+
+theorem lost_frame_core (cfg : Cfg) (s s' : St) (e : Ev) (h : acceptCore cfg s e = some s') (m : Nat) (x : Ch × Nat)
+    (hx : x ∈ (s'.msg m).lostRecs) :
+    x ∈ (s.msg m).lostRecs ∨
+    ∃ content, e = .crashBounce m content ∧ s.crashed = true ∧ x ∈ (s.msg m).inFile ∧
+      ((s.msg m).bounce.getD []).isPrefixOf content = false := by
+  cases e
+  case rbytes c bs =>
+    simp only [acceptCore] at h
+    split at h
+    · cases h
+    · cases h; left; rw [feedReports_lost] at hx; exact hx
+  case crashBounce m' content =>
+    simp only [acceptCore] at h
+    split at h
+    · rename_i hg; cases h
+      rw [St.msg_upd] at hx
+      split at hx
+      · rename_i he; subst he
+        simp only at hx
+        rcases List.mem_append.1 hx with h1 | h1
+        · right
+          cases hp : ((s.msg m).bounce.getD []).isPrefixOf content with
+          | true => simp [hp] at h1
+          | false =>
+            simp only [hp] at h1
+            exact ⟨content, rfl, hg.1, by simpa using h1, hp⟩
+        · exact Or.inl h1
+      · exact Or.inl hx
+    · cases h
+  all_goals (simp only [acceptCore] at h; repeat' split at h)
+  all_goals first
+    | (cases h; done)
+    | (cases h; left; exact hx)
+    | (cases h; left; refine lost_tab s _ _ _ rfl ?_ m x hx; intro y hy; first | (simp at hy; done) | (simp at hy; exact hy))
+
+/-- **A record enters the crash exemption list `lostRecs` only by a crash-damage event**: by `crashBounce` for its message,
+accepted in the crash window (`crashed`: after a crash and before anything else but arrivals happened), while its paragraph was
+in `bounce/<m>` and the new content does not start with the old one. -/
+theorem lost_frame (cfg : Cfg) (s s' : St) (e : Ev) (h : accept cfg s e = some s') (m : Nat) (x : Ch × Nat)
+    (hx : x ∈ (s'.msg m).lostRecs) :
+    x ∈ (s.msg m).lostRecs ∨
+    ∃ content, e = .crashBounce m content ∧ s.crashed = true ∧ x ∈ (s.msg m).inFile ∧
+      ((s.msg m).bounce.getD []).isPrefixOf content = false := by
+  rcases lost_frame_core cfg (s.before e) s' e h m x hx with h1 | ⟨content, he, hc, hi, hp⟩
+  · left; rw [St.before_msg] at h1; exact h1
+  · right
+    subst he
+    exact ⟨content, rfl, hc, hi, hp⟩
+
+/-- on a whole trace: a record in `lostRecs` at the end was there at the start, or the trace contains a `crashBounce` for its
+message that was accepted with the mode flag set -/
+theorem lost_trace (cfg : Cfg) (m : Nat) (x : Ch × Nat) : ∀ (evs : List Ev) (s0 s : St), acceptAll cfg s0 evs = some s →
+    x ∈ (s.msg m).lostRecs →
+    x ∈ (s0.msg m).lostRecs ∨
+    ∃ pre content post s1, evs = pre ++ Ev.crashBounce m content :: post ∧ acceptAll cfg s0 pre = some s1 ∧ s1.crashed = true
+  | [], s0, s, h, hx => by simp only [acceptAll] at h; cases h; exact Or.inl hx
+  | e :: es, s0, s, h, hx => by
+    simp only [acceptAll] at h
+    cases h1 : accept cfg s0 e with
+    | none => simp [h1] at h
+    | some s1 =>
+      simp only [h1] at h
+      rcases lost_trace cfg m x es s1 s h hx with h2 | ⟨pre, content, post, s2, he, hp, hc⟩
+      · rcases lost_frame cfg s0 s1 e h1 m x h2 with h3 | ⟨content, he, hc, _, _⟩
+        · exact Or.inl h3
+        · exact Or.inr ⟨[], content, es, s0, by simp [he], rfl, hc⟩
+      · exact Or.inr ⟨e :: pre, content, post, s2, by simp [he], by simp only [acceptAll, h1]; exact hp, hc⟩
 
 /-- the invariant does not speak about the crash mode -/
 theorem inv_before (cfg : Cfg) (s : St) (e : Ev) (h : Inv cfg s) : Inv cfg (s.before e) :=
